@@ -149,6 +149,11 @@ def run_job(job):
         dst = work / "out.scx"
         if job["dst"] == "existing":
             dst.write_bytes(b"previous content of the destination " * 50)
+        elif job["dst"] == "empty":            # an existing file of 0 bytes is an existing file
+            dst.write_bytes(b"")
+        elif job["dst"] == "symlink":          # so is a link to one
+            (work / "linktarget.bin").write_bytes(b"content behind the link " * 20)
+            os.symlink(str(work / "linktarget.bin"), str(dst))
         elif job["dst"] == "same":
             dst = base
         mpq_io = StarCraftMpqIoHelper.create_mpq_io()
@@ -210,7 +215,9 @@ def run_job(job):
         else:
             dclass = "new" if os.path.getsize(dst) > 100 else "broken"
         leftovers = sorted(os.listdir(tmpd)) + sorted(p.name for p in work.iterdir()
-                                                       if p.name not in ("tmp", "base.scx", "out.scx") and not p.name.startswith("sound"))
+                                                       if p.name not in ("tmp", "base.scx", "out.scx", "linktarget.bin") and not p.name.startswith("sound"))
+        if job["dst"] == "symlink" and dclass == "unchanged" and not os.path.islink(dst):
+            dclass = "changed"
         return {"exc": exc, "base_unchanged": sha(base) == before["base"] if job["dst"] != "same" else None,
                 "audio_unchanged": [sha(a) for a in audio] == before["audio"], "dst": dclass,
                 "leftovers": leftovers, "steps": inj.n, "log": inj.log}
